@@ -1527,3 +1527,107 @@ def lemma_L7symverfixed(prog, res, cls="ELF64"):
             res.stats["queries"] += st_["queries"]
             res.stats["paths"] += st_["paths"]
         pair_compare(res, name, sp, bp, True)
+
+
+# ---------------------------------------------------------------------------------------------------------
+# Lprefix (C18): every slice-parser query on a proper prefix of a file is Err or exactly the full file's answer.
+# Two executions of the same MIR body share the content function file_uW_at(pos) (a prefix has the same bytes at the positions it
+# has) and differ only in the length symbol: file_len for the complete file, prefix_len <= file_len for the prefix. No size bound.
+
+
+class _prefix_len:
+    def __enter__(self):
+        model.LEN_NAME = "prefix_len"
+
+    def __exit__(self, *a):
+        model.LEN_NAME = "file_len"
+
+
+def prefix_compare(res, name, pp, fp_, proj=None):
+    """pp: paths on the prefix, fp_: paths on the complete file"""
+    solver = new_solver()
+    rel = z3.ULE(z3.BitVec("prefix_len", 64), z3.BitVec("file_len", 64))
+    pairs = both = errs = 0
+    bad = False
+    for a in pp:
+        if a["status"] != "ok":
+            continue
+        if not is_ok(a["value"]):
+            errs += 1
+            continue          # an error on the prefix is always allowed
+        for b in fp_:
+            pc = a["pc"] + b["pc"] + [rel]
+            res.stats["queries"] += 1
+            if solver.check(*pc) != z3.sat:
+                continue
+            pairs += 1
+            if b["status"] != "ok":
+                continue      # a panic on the full file is C01's finding
+            if not is_ok(b["value"]):
+                mdl = solver.model()
+                bad = True
+                res.add(f"C18.prefix_ok_implies_full_ok({name})", "violated", f"prefix answers Ok({a['value'].f[0]!r}) where the complete file errs: {model_str(mdl, 24)}"[:900], mdl)
+                continue
+            both += 1
+            x = proj(a["value"].f[0]) if proj else a["value"].f[0]
+            y = proj(b["value"].f[0]) if proj else b["value"].f[0]
+            okv, mdl = valid(res, solver, pc, equal_vals(x, y))
+            if not okv:
+                bad = True
+            res.add(f"C18.prefix_answer_equals_full_answer({name})", "holds" if okv else "violated",
+                    "" if okv else f"prefix={x!r} full={y!r} :: {model_str(mdl, 24)}"[:1200], mdl)
+    res.add(f"C18.prefix_err_or_same({name})", "violated" if bad else "holds",
+            f"{len(pp)} prefix paths ({errs} Err) x {len(fp_)} full-file paths, {pairs} joint Ok-prefix pairs, {both} both-Ok")
+    res.add(f"Lprefix.witness.both_ok({name})", "holds" if both >= 1 and errs >= 1 else "inconclusive", f"both-Ok={both}, prefix-Err paths={errs}")
+
+
+PREFIX_STRAIGHT = [("section_data", "shdr"), ("section_data_as_strtab", "shdr"), ("section_data_as_rels", "shdr"),
+                   ("section_data_as_relas", "shdr"), ("section_data_as_notes", "shdr"), ("segment_data", "phdr"),
+                   ("segment_data_as_notes", "phdr")]
+PREFIX_LOOPED = ["symbol_table", "dynamic_symbol_table", "dynamic", "section_headers_with_strtab", "symbol_version_table",
+                 "section_header_by_name", "find_common_data"]
+
+
+def lemma_Lprefix(prog, res, classes=("ELF64",), straight=None, looped=None):
+    def acct(*sts):
+        for st in sts:
+            res.stats["queries"] += st["queries"]
+            res.stats["paths"] += st["paths"]
+    # (a) open
+    try:
+        fpaths, _, fst = run_minimal_parse(prog, tag="pfF")
+        with _prefix_len():
+            ppaths, _, pst = run_minimal_parse(prog, tag="pfP")
+        acct(fst, pst)
+        # the ElfBytes value is (ehdr, data, shdrs, phdrs): everything but the data slice itself (whose length is the input's) must agree
+        prefix_compare(res, "minimal_parse", ppaths, fpaths, proj=lambda eb: Agg([eb.f[0], eb.f[2], eb.f[3]], "proj"))
+    except sym.Unsupported as u:
+        res.add("Lprefix.encode(minimal_parse)", "inconclusive", str(u))
+    for cls in classes:
+        # (b) header-argument accessors (header fully symbolic, incl. SHF_COMPRESSED and SHT_NOBITS)
+        for (method, kind) in (straight if straight is not None else PREFIX_STRAIGHT):
+            name = f"{method}[{cls}]"
+            mk = (lambda: [mk_shdr()]) if kind == "shdr" else (lambda: [mk_phdr()])
+            try:
+                fpaths, _, fst = run_bytes_method(prog, method, cls, mk, tag="pF" + method[-5:])
+                with _prefix_len():
+                    ppaths, _, pst = run_bytes_method(prog, method, cls, mk, tag="pP" + method[-5:])
+            except sym.Unsupported as u:
+                res.add(f"Lprefix.encode({name})", "inconclusive", str(u))
+                continue
+            acct(fst, pst)
+            prefix_compare(res, name, ppaths, fpaths)
+        # (c) table-driven accessors on bounded tables (the prefix opened with the same tables: both fit inside the prefix)
+        for method in (looped if looped is not None else PREFIX_LOOPED):
+            for (ws, wp) in (((True, True),) if method == "find_common_data" else ((True, False), (False, True)) if method == "dynamic" else ((True, False),)):
+                name = f"{method}[{cls},{'sections+segments' if ws and wp else 'sections' if ws else 'segments only'}]"
+                xa = query_arg if method == "section_header_by_name" else None
+                try:
+                    fpaths, _, fst = run_file_method(prog, "bytes", method, cls, ws, wp, extra_args=xa, tag="qF" + method[:5])
+                    with _prefix_len():
+                        ppaths, _, pst = run_file_method(prog, "bytes", method, cls, ws, wp, extra_args=xa, tag="qP" + method[:5])
+                except sym.Unsupported as u:
+                    res.add(f"Lprefix.encode({name})", "inconclusive", str(u))
+                    continue
+                acct(fst, pst)
+                prefix_compare(res, name, ppaths, fpaths)
